@@ -248,6 +248,14 @@ func cmdCBuiltins(c *ctx) {
 			}
 		}
 		walk(u)
+		// MSL defines its geometric functions (length, distance, …) for vector operands only
+		if dialect == "msl" && strings.HasSuffix(p.name, " f32") {
+			for _, f := range []string{"length", "distance"} {
+				if strings.HasPrefix(p.name, f+" ") && strings.Contains(text, "metal::"+f+"(") {
+					missing["metal::"+f+"(scalar)"] = true
+				}
+			}
+		}
 		c.count("probes")
 		if len(missing) > 0 {
 			var ms []string
